@@ -24,7 +24,7 @@ type Mutated struct {
 var DefectClasses = []string{
 	"substitute", "transpose", "count-delete", "count-insert", "count-any", "foreign-word", "case",
 	"affix", "junk-token", "separator", "checksum-only", "last-word", "none", "lead-zero-wrongsum",
-	"empty-token", "drop-word-keep-separator", "strip-marks", "add-mark", "invisible-affix", "count-wrap", "hash-lookalike",
+	"empty-token", "drop-word-keep-separator", "strip-marks", "add-mark", "invisible-affix", "count-wrap", "hash-lookalike", "letter-affix",
 }
 
 func join(l ref.Lang, idx []int, sep string) string {
@@ -243,6 +243,21 @@ func Defect() *rapid.Generator[Mutated] {
 			ws[p] = x.Token
 			m.Lang = x.Lang
 			m.Text, m.Desc = strings.Join(ws, " "), fmt.Sprintf("word %d replaced by %q, which has the %s hash and length of %s word %d", p, x.Token, x.Hash, x.Lang, x.Index)
+		case "letter-affix":
+			// one more letter at the end of a word, or its last letter changed ("abandonx", "abandob"):
+			// what a lookup that only keys on a prefix or a packed fixed-width key cannot tell apart
+			p := rapid.IntRange(0, n-1).Draw(t, "pos")
+			letter := string(rune('a' + rapid.IntRange(0, 25).Draw(t, "letter")))
+			r := []rune(words[p])
+			switch rapid.IntRange(0, 2).Draw(t, "how") {
+			case 0:
+				words[p] += letter
+			case 1:
+				words[p] = string(r[:len(r)-1]) + letter
+			default:
+				words[p] += letter + letter
+			}
+			m.Text, m.Desc = strings.Join(words, " "), fmt.Sprintf("letter damage at the end of word %d", p)
 		case "lead-zero-wrongsum":
 			// sentences whose entropy starts with zero bytes and whose checksum is the one of
 			// the entropy with its leading zero bytes dropped (what a big-integer
